@@ -236,3 +236,88 @@ Proof. intros H1. cbv zeta. field. split; lra. Qed.
 Lemma ftcf_zero_symmetric twokbt Jp Jm step : Jm == - Jp -> ~ step == 0 ->
   ftcf_zero twokbt Jp Jm step == twokbt * Jp / step.
 Proof. intros H Hs. unfold ftcf_zero. rewrite H. field. exact Hs. Qed.
+
+
+(* ---------- Foerster: roles of the two indices; the two directions of a pair ---------- *)
+Section FoersterRoles.
+  Context {R : StarRing}.
+  Add Ring Rr3 : (rth R).
+  Open Scope sr_scope.
+
+  Lemma foerster_transfer_uses_donor_column {G : Type} Na (fint : G -> G -> R -> R -> R -> R) (gt : nat -> G) (HH : @mat R) (ll : nat -> R) a b :
+    a <> b ->
+    foerster_rates Na HH (foerster_F fint gt HH ll) a b = HH a b * HH a b * fint (gt a) (gt b) (HH b b) (HH a a) (ll b).
+  Proof. intros Hab. rewrite foerster_offdiag by exact Hab. reflexivity. Qed.
+
+  (* with the relaxed gap D = (ed - ld) - (ea - la) and L = ld + la the transfer d -> a oscillates with D - L and the transfer
+     a -> d with -D - L: the two integrands are mirror images about -L, which is what detailed balance w.r.t. E - lambda rests on *)
+  Lemma foerster_phase_relaxed_gap (two ed ea ld la : R) : two = 1 + 1 ->
+    foerster_phase two ed ea ld = ((ed - ld) - (ea - la)) - (ld + la) /\
+    foerster_phase two ea ed la = 0 - ((ed - ld) - (ea - la)) - (ld + la).
+  Proof. intros ->. unfold foerster_phase. split; ring. Qed.
+End FoersterRoles.
+
+Local Open Scope Q_scope.
+
+(* ---------- temperature selection ---------- *)
+Lemma ft_temp_from_arg t ps : ft_temp_from (Some t) t ps = FtOk t.
+Proof.
+  induction ps as [|p ps IH]; cbn [ft_temp_from ft_prm_T]; [reflexivity|].
+  assert (H : Qeq_bool t t = true) by (apply Qeq_bool_iff; reflexivity). now rewrite H.
+Qed.
+
+(* a temperature given by the caller is the one that is used, whatever the components store *)
+Lemma ft_temperature_argument_wins t p ps : ft_temperature (Some t) (p :: ps) = FtOk t.
+Proof. cbn [ft_temperature ft_prm_T]. apply ft_temp_from_arg. Qed.
+
+Lemma ft_temp_from_stored temp ps t : ft_temp_from None temp ps = FtOk t ->
+  t = temp /\ forall p, In p ps -> exists t', p = Some t' /\ t' == t.
+Proof.
+  induction ps as [|p ps IH]; cbn [ft_temp_from ft_prm_T]; intros H.
+  - injection H as <-. split; [reflexivity|]. intros p [].
+  - destruct p as [tp|]; [|discriminate]. destruct (Qeq_bool temp tp) eqn:E; [|discriminate].
+    destruct (IH H) as [-> Hall]. split; [reflexivity|]. intros p [<-|Hin].
+    + exists tp. split; [reflexivity|]. apply Qeq_bool_iff in E. symmetry. exact E.
+    + now apply Hall.
+Qed.
+
+(* without the argument the result is the common stored temperature of all components *)
+Lemma ft_temperature_stored ps t : ft_temperature None ps = FtOk t ->
+  forall p, In p ps -> exists t', p = Some t' /\ t' == t.
+Proof.
+  destruct ps as [|p ps]; cbn [ft_temperature ft_prm_T]; [discriminate|]. destruct p as [tp|]; [|discriminate].
+  intros H. destruct (ft_temp_from_stored tp ps t H) as [-> Hall]. intros p [<-|Hin].
+  - exists tp. split; reflexivity.
+  - now apply Hall.
+Qed.
+
+(* ---------- values on the grid ---------- *)
+(* the argument of tanh is half of w/kT *)
+Lemma ftcf_argument_is_half kB T w : ~ kB * T == 0 -> 2 * (w / ftcf_twokbt kB T) == w / (kB * T).
+Proof. intros H. unfold ftcf_twokbt. field. repeat split; try lra; intros H0; apply H; rewrite H0; ring. Qed.
+
+(* detailed balance at a pair of mirror points of the grid: e stands for exp(-2x), x = w/twokbt, i.e. for exp(-w/kT) *)
+Lemma ftcf_point_detailed_balance (th : Q -> Q) twokbt w J e : ~ e == 1 -> ~ e == - (1) ->
+  th (w / twokbt) == (1 - e) / (1 + e) -> th (- w / twokbt) == - th (w / twokbt) ->
+  ftcf_point th twokbt (- w) (- J) == e * ftcf_point th twokbt w J.
+Proof.
+  intros H1 H2 Hth Hodd. unfold ftcf_point, ftcf_value. rewrite Hodd, Hth. field. split; lra.
+Qed.
+
+(* the same for two points i, i' of the grid that are mirror images, neither being the zero point *)
+Lemma ftcf_grid_detailed_balance (th : Q -> Q) twokbt step i0 direct omega data i i' e : ~ e == 1 -> ~ e == - (1) ->
+  i <> i0 -> i' <> i0 -> omega i' = - omega i -> data i' == - data i ->
+  th (omega i / twokbt) == (1 - e) / (1 + e) -> th (- omega i / twokbt) == - th (omega i / twokbt) ->
+  ftcf_grid th twokbt step i0 direct omega data i' == e * ftcf_grid th twokbt step i0 direct omega data i.
+Proof.
+  intros H1 H2 Hi Hi' Hw HJ Hth Hodd. unfold ftcf_grid.
+  apply Nat.eqb_neq in Hi. apply Nat.eqb_neq in Hi'. rewrite Hi, Hi', Hw.
+  assert (E : ftcf_point th twokbt (- omega i) (data i') == ftcf_point th twokbt (- omega i) (- data i)).
+  { unfold ftcf_point, ftcf_value. rewrite HJ. reflexivity. }
+  destruct direct; rewrite E; now apply ftcf_point_detailed_balance.
+Qed.
+
+(* at the zero point an odd spectral density gives the symmetric-difference limit 2kT J'(0) *)
+Lemma ftcf_grid_zero_point (th : Q -> Q) twokbt step i0 omega data : ~ step == 0 -> data (pred i0) == - data (S i0) ->
+  ftcf_grid th twokbt step i0 false omega data i0 == twokbt * data (S i0) / step.
+Proof. intros Hs Hodd. unfold ftcf_grid. rewrite Nat.eqb_refl. now apply ftcf_zero_symmetric. Qed.
